@@ -6,10 +6,11 @@ PROPERTY = "C12"
 BUDGET = {"quick": 900, "thorough": 3000}
 namespaces = hsys.namespaces
 real_namespace = common.real_namespace
-GOALS = ["producer paused at the watermark while the client stalls", "producer resumed after the client drained", "producer released by a disconnect",
+GOALS = ["producer still paused after a partial drain", "teardown after a socket error releases the producer", "producer paused at the watermark while the client stalls", "producer resumed after the client drained", "producer released by a disconnect",
          "degenerate watermark 0 or 1", "write larger than the watermark", "pre-empted schedule explored"]
-ASSUMPTIONS = ["one producing worker, one connection; the client first stalls (from the start or after the first accepted send), then either drains "
-               "everything or disconnects; outbuf_high_watermark in [0, 400] is a symbolic integer, send_bytes = 1 (default)",
+ASSUMPTIONS = ["one producing worker, one connection; the client first stalls (from the start or after the first accepted send), then drains everything, "
+               "takes a few bytes and stalls again, disconnects, or its socket fails with EIO; outbuf_high_watermark in [0, 400] and send_bytes in [1, 64] are "
+               "symbolic integers (send_bytes <= watermark + 1 while finding D20 of C05 is recorded)",
                "schedule granularity: lock / condition / socket / pipe / select operations (thorough: plus every source line of channel.py for one scenario)"]
 STUBS = C04.STUBS
 SIZES = (1, 50, 150)
@@ -23,7 +24,7 @@ def BOUNDS(tier):
 
 def jobs(tier):
     js = []
-    for end in ("drain", "disconnect"):
+    for end in ("drain", "disconnect", "partial_drain", "error"):
         for stall in ("start", "after1"):
             for k in ((1, 2) if tier == "quick" else (1, 2, 3)):
                 js.append(dict(name="%s:%s:k%d" % (end, stall, k), end=end, stall=stall, k=k, P=1 if tier == "quick" else 2, gran="sync"))
@@ -37,8 +38,13 @@ def make_inputs(job):
     eng = E()
     sizes = [SIZES[eng.choose(len(SIZES), "sz%d" % i)] for i in range(job["k"])]
     wm = eng.fresh_int("watermark", 0, 400)
+    sb = eng.fresh_int("send_bytes", 1, 64)
+    from wsx import runner
+    if "D20-send-bytes-above-watermark-deadlock" in [k["id"] for k in runner.load_known("C05") if k.get("kind") == "known"]:
+        eng.assume(sb <= wm + 1)  # recorded finding D20 (C05): send_bytes above the watermark
     partial = bool(eng.choose(2, "partial"))
-    return dict(end=job["end"], stall=job["stall"], sizes=sizes, watermark=wm, partial=partial, P=job["P"], gran=job["gran"])
+    take = (1, 6, 60)[eng.choose(3, "take")] if job["end"] == "partial_drain" else 0
+    return dict(end=job["end"], stall=job["stall"], sizes=sizes, watermark=wm, send_bytes=sb, partial=partial, take=take, P=job["P"], gran=job["gran"])
 
 
 def scenario(ns, inp):
@@ -59,7 +65,7 @@ def scenario(ns, inp):
         rec["done"] = True
         return []
 
-    sysm = hsys.System(ns, app, adj_kw=dict(threads=1, outbuf_high_watermark=inp["watermark"]), P=inp["P"],
+    sysm = hsys.System(ns, app, adj_kw=dict(threads=1, outbuf_high_watermark=inp["watermark"], send_bytes=inp.get("send_bytes", 1)), P=inp["P"],
                        yield_funcs=None if inp["gran"] == "line" else set())
     try:
         conn = sysm.connect([b"GET / HTTP/1.1\r\n\r\n"])
@@ -79,7 +85,28 @@ def scenario(ns, inp):
         ch = chans[0] if chans else None
         stalled = dict(pending=ch.total_outbufs_len if ch else 0, waiters=len(ch.outbuf_lock.waiters) if ch else 0, wire=bytes(conn.wire()),
                        nwrites=rec["nwrites"], done=rec["done"], spinning=sysm.s.spinning)
-        if inp["end"] == "drain":
+        ch0 = ch
+        if inp["end"] == "partial_drain":
+            # the client takes a limited number of bytes once and stalls again
+            conn.client_reading = True
+            orig3 = conn.send
+
+            def send3(d):
+                conn.accept = [inp["take"]]
+                n = orig3(d)
+                conn.client_reading = False
+                conn.send = orig3
+                return n
+            conn.send = send3
+        elif inp["end"] == "error":
+            import errno as _errno
+            conn.client_reading = True
+            origf = conn.send
+
+            def sendf(d):
+                raise OSError(_errno.EIO, "I/O error")
+            conn.send = sendf
+        elif inp["end"] == "drain":
             conn.client_reading = True
             if inp["partial"]:
                 orig2 = conn.send
@@ -95,7 +122,8 @@ def scenario(ns, inp):
         chans = sysm.channels()
         final = dict(wire=bytes(conn.wire()), closed=conn.closed, done=rec["done"], exc=rec["exc"], nwrites=rec["nwrites"],
                      pending=[c.total_outbufs_len for c in chans], waiters=[len(c.outbuf_lock.waiters) for c in chans],
-                     blocked=sorted(sysm.s.blocked()), spinning=sysm.s.spinning, queued=[len(c.requests) for c in chans])
+                     blocked=sorted(sysm.s.blocked()), spinning=sysm.s.spinning, queued=[len(c.requests) for c in chans],
+                     ch_total=ch0.total_outbufs_len if ch0 is not None else 0, ch_waiters=len(ch0.outbuf_lock.waiters) if ch0 is not None else 0)
         obs = dict(after_write=list(rec["after_write"]), stalled=stalled, final=final, exc=list(sysm.s.thread_exceptions), live=sorted(sysm.s.live()),
                    preempt=sysm.s.preempt)
     finally:
@@ -126,8 +154,14 @@ def oracle(inp, obs):
         out.append(("after the client drained the backlog the producer resumed and finished", fin["done"] and fin["exc"] is None and fin["waiters"] == [0]))
         out.append(("the client received exactly the response, in order, unmodified", fin["wire"].endswith(b"\r\n\r\n" + body) and fin["wire"].count(b"HTTP/1.1 200") == 1))
         out.append(("nothing is left pending", fin["pending"] == [0] and fin["queued"] == [0]))
+    elif inp["end"] == "partial_drain":
+        if fin["ch_waiters"]:
+            out.append(("after a partial drain a paused producer keeps waiting only while the backlog is above the watermark (backlog %d)" % fin["ch_total"],
+                        bool(fin["ch_total"] > wm)))
+        out.append(("the backlog never becomes negative", fin["ch_total"] >= 0))
     else:
-        out.append(("on disconnect the producer is released promptly (not left waiting)", not any(fin["waiters"])))
+        out.append(("after the teardown the channel holds no output and the count is not negative", fin["ch_total"] == 0))
+        out.append(("on disconnect the producer is released promptly (not left waiting)", not any(fin["waiters"]) and fin["ch_waiters"] == 0))
         out.append(("on disconnect the request is aborted or had already finished", fin["done"] or fin["exc"] == "ClientDisconnected"))
         out.append(("the connection is torn down", fin["closed"] >= 1))
         exp = body
@@ -145,6 +179,10 @@ def goals(cin, cobs):
             out.append("producer resumed after the client drained")
         if cin["end"] == "disconnect" and not any(cobs["final"]["waiters"]):
             out.append("producer released by a disconnect")
+    if cin["end"] == "partial_drain" and cobs["final"]["ch_waiters"]:
+        out.append("producer still paused after a partial drain")
+    if cin["end"] == "error" and cobs["stalled"]["waiters"] and not cobs["final"]["ch_waiters"]:
+        out.append("teardown after a socket error releases the producer")
     if cin["watermark"] <= 1:
         out.append("degenerate watermark 0 or 1")
     if max(cin["sizes"]) > cin["watermark"]:
